@@ -157,6 +157,7 @@ func main() {
 	runECCSpecial()
 	runECCRegister()
 	runECCHistories() // parity + interleaving, vector families
+	runECCTwins()
 	if !chk.Quick() {
 		runECCValues()
 	}
@@ -183,6 +184,10 @@ func replay(c rcase) {
 	case "ecch":
 		fmt.Println("replay of a call history re-runs the history family")
 		runECCHistories()
+	case "ecct":
+		if s, ok := symBySize(c.Rows, c.Cols); ok {
+			twinCase(l, s, c.N/16, c.N%16, c.Index/3, c.Index%3)
+		}
 	case "eccr":
 		if s, ok := symBySize(c.Rows, c.Cols); ok {
 			eccRegisterCase(l, s, c.Index, c.N)
